@@ -282,6 +282,13 @@ func (t *Tree) recover(errp *error) {
 			panic(e)
 		}
 		if t != nil {
+			if t.lex != nil {
+				// The lexer goroutine blocks on every item it sends: take
+				// the remaining ones so that it runs to its end instead of
+				// being left behind.
+				for range t.lex.items {
+				}
+			}
 			t.stopParse()
 		}
 		*errp = e.(error)
